@@ -366,6 +366,12 @@ def rules(chk, db):
     encrules.narrowing(chk, db, 'NR', {'ReadPayload', 'Read'})
     # ENS: a declared length / count reaches an allocation only after the reader confirmed that many bytes (no exception escapes dispatch)
     encrules.read_rules(chk, db, want=('GRD', 'ENS'))
+    # ... and a corrupted scalar argument byte is a decode error, not a dispatch: Match of the scalar decoders accepts exactly the documented bytes
+    from .. import ilrules
+    chk.rule('MS', 'Match accepts exactly the documented classes (all 256 prefix bytes)', minimum=9)
+    chk.rule('FB', 'float/double/bool match sets and payloads', minimum=3)
+    ilrules.match_sets(chk, db, 'MS')
+    ilrules.float_bool(chk, db, 'FB')
     # "the handler bound to the request's method selector": selectors are SipHash of the method name under the INTERFACE's hash, so
     # equal method names of different interfaces get different selectors (compile-time witnesses shared with C18)
     from . import c18
